@@ -71,6 +71,32 @@ static const char* resName(int r)
    }
    return "?";
 }
+
+// known finding C08/aggregation-cancellation-residue: floating-point aggregation turns coefficients that cancel exactly in
+// rational arithmetic into ~1e-15 residues (changeElement drops only |a| <= 1e-16, and nearly parallel rows keep a 1e-16
+// relative difference); an exactly rank-deficient infeasible system then becomes 'feasible' at |x| ~ 1e15. Signature:
+// the discrepancy is realised only by points >= 1e9 x the largest datum of the LP.
+static Q dataMagnitude(const LP& lp)
+{
+   Q big = 1;
+   auto see = [&](const Q & q)
+   {
+      if(isFin(q) && qabs(q) > big) big = qabs(q);
+   };
+   for(int j = 0; j < lp.n(); j++)
+   {
+      see(lp.lo[j]);
+      see(lp.up[j]);
+      see(lp.obj[j]);
+   }
+   for(int i = 0; i < lp.m(); i++)
+   {
+      see(lp.lhs[i]);
+      see(lp.rhs[i]);
+      for(int j = 0; j < lp.n(); j++) see(lp.A[i][j]);
+   }
+   return big;
+}
 static std::string basisCheck(const LP& lp, const VarStatus* rows, const VarStatus* cols)
 {
    int basic = 0;
@@ -193,7 +219,26 @@ static Verdict runInner(const Case& c)
    {
       if(cls != CL_OPT)
       {
-         if(cls == CL_UNB && z3HasNonWorseningRay(lp) == 1 && false) return v;
+         if(knownKey("aggregation-cancellation-residue"))
+         {
+            VectorBase<double> x0(0), y0(0), s0(0), r0(0);
+            std::vector<VarStatus> rs(m + 1, Solver::BASIC), cs(n + 1, Solver::ON_LOWER);
+            bool blow = false;
+            try
+            {
+               sm.unsimplify(x0, y0, s0, r0, rs.data(), cs.data());
+               Q box = Q(1000000000) * dataMagnitude(lp);
+               for(auto& xq : toQ(sm.unsimplifiedPrimal())) if(qabs(xq) > box) blow = true;
+            }
+            catch(const SPxException&)
+            {
+            }
+            if(blow)
+            {
+               e.count("excluded_known.aggregation-cancellation-residue");
+               return v;
+            }
+         }
          v.fail(std::string("presolve solved the LP outright (VANISHED) but it has no finite optimum (planted ") + className(cls) + ")");
          return v;
       }
@@ -239,26 +284,60 @@ static Verdict runInner(const Case& c)
       // the reduced LP carries rounding errors of the presolve arithmetic; exact reasoning about it is only
       // meaningful after relaxing every bound and side outward by 1e-9 (1 + |value|): a point that is feasible up to
       // rounding stays feasible, while an over- or under-constrained reduction still moves the optimum by O(1)
-      LP rel = red;
+      // (the exact optimum of the ROUNDED reduced LP is not meaningful either: nearly parallel rows that differ by 1e-15
+      // cut the feasible set down to a face; so the relaxed LP is always used and the objective tolerance is widened by the
+      // measured sensitivity of the optimum to the relaxation, 3 |z(delta) - z(2 delta)|)
+      auto relax = [&](const Q & delta)
+      {
+         LP rel = red;
+         for(int j = 0; j < rel.n(); j++)
+         {
+            if(isFin(rel.lo[j])) rel.lo[j] -= delta * (1 + qabs(rel.lo[j]));
+            if(isFin(rel.up[j])) rel.up[j] += delta * (1 + qabs(rel.up[j]));
+         }
+         for(int i = 0; i < rel.m(); i++)
+         {
+            if(isFin(rel.lhs[i])) rel.lhs[i] -= delta * (1 + qabs(rel.lhs[i]));
+            if(isFin(rel.rhs[i])) rel.rhs[i] += delta * (1 + qabs(rel.rhs[i]));
+         }
+         return rel;
+      };
+      Q zr, sens = 0;
       Q delta(1, 1000000000);
-      for(int j = 0; j < rel.n(); j++)
+      int rc = z3Classify(relax(delta), &zr);
+      if(rc == CL_OPT)
       {
-         if(isFin(rel.lo[j])) rel.lo[j] -= delta * (1 + qabs(rel.lo[j]));
-         if(isFin(rel.up[j])) rel.up[j] += delta * (1 + qabs(rel.up[j]));
+         Q z2;
+         if(z3Classify(relax(2 * delta), &z2) == CL_OPT) sens = 3 * qabs(zr - z2);
       }
-      for(int i = 0; i < rel.m(); i++)
+      // signature of known finding C08/aggregation-cancellation-residue: the discrepancy exists only at blow-up scale, i.e.
+      // the relaxed reduced LP restricted to the box |x_j| <= 1e9 x (largest datum) agrees with the original LP
+      auto blowupOnly = [&]()
       {
-         if(isFin(rel.lhs[i])) rel.lhs[i] -= delta * (1 + qabs(rel.lhs[i]));
-         if(isFin(rel.rhs[i])) rel.rhs[i] += delta * (1 + qabs(rel.rhs[i]));
-      }
-      Q zr;
-      int rc = z3Classify(rel, &zr);
+         LP b = relax(delta);
+         Q box = Q(1000000000) * dataMagnitude(lp);
+         for(int j = 0; j < b.n(); j++)
+         {
+            if(b.lo[j] < -box) b.lo[j] = -box;
+            if(b.up[j] > box) b.up[j] = box;
+         }
+         Q zb;
+         int rb = z3Classify(b, &zb);
+         if(cls == CL_INF || cls == CL_INFUNB) return rb == CL_INF;
+         if(cls == CL_OPT) return rb == CL_OPT && qabs(zb + objoff + lp.offset - c.pl.z) <= Q(1, 1000000) * (1 + qabs(c.pl.z)) + sens;
+         return false;
+      };
       e.count(std::string("reduced_class.") + className(rc));
       if(rc != CL_UNKNOWN)
       {
          bool illB = false, illF = false;
          auto bad = [&](const std::string & what)
          {
+            if(knownKey("aggregation-cancellation-residue") && blowupOnly())
+            {
+               e.count("excluded_known.aggregation-cancellation-residue");
+               return;
+            }
             v.fail("reduced LP " + what + " but the original LP is planted " + className(cls));
          };
          if(cls == CL_OPT)
@@ -276,7 +355,7 @@ static Verdict runInner(const Case& c)
             else
             {
                Q diff = qabs(zr + objoff + lp.offset - c.pl.z);
-               if(diff > Q(1, 1000000) * (1 + qabs(c.pl.z)))
+               if(diff > Q(1, 1000000) * (1 + qabs(c.pl.z)) + sens)
                {
                   // objective of the reduced problem may legitimately move only by rounding
                   bad("has optimum " + fmtd(zr + objoff + lp.offset) + " (expected " + fmtd(c.pl.z) + ")");
